@@ -647,6 +647,8 @@ USER_PER_LEG = {
     ("yastn.tensor._initialize", "__setitem__"): ["key"],
     ("yastn.tensor._output", "__getitem__"): ["key"],
     ("yastn.tensor._output", "to_nonsymmetric"): ["legs"],
+    # keys of output_unroll_info are positions in the *requested output order* of the contraction (tensor-leg order of `partial`)
+    ("yastn.tensor.oe_blocksparse", "_expand_partial_output"): ["output_unroll_info"],
 }
 
 
@@ -679,13 +681,31 @@ def run_I3(chk, rule="I3"):
                        (isinstance(x, ast.Call) and A.callee_attr(x) == "consume_transpose") for x in ast.walk(st))
         stmts = [n.ast for n in cfg.nodes if n.ast is not None]
         tr = [s for s in stmts if reads_trans(s)]
+        nat_fields = (f"{me}.struct.s", f"{me}.struct.t", f"{me}.struct.D", f"{me}.hfs", f"{me}.slices")
+        # names that hold native per-leg data (elements of / values computed from the native fields)
+        nat_derived = set()
+        changed = True
+        while changed:
+            changed = False
+            for nm, defs in b.items():
+                if nm in nat_derived or nm in derived:
+                    continue
+                for _, v, k in defs:
+                    if v is None:
+                        continue
+                    tv = A.text(v)
+                    if any(kf in tv for kf in nat_fields) or any(isinstance(x, ast.Name) and x.id in nat_derived for x in ast.walk(v)):
+                        nat_derived.add(nm)
+                        changed = True
+                        break
         uses = []
         for s in stmts:
             if isinstance(s, (ast.FunctionDef,)):
                 continue
-            t = A.text(s)
-            native = any(k in t for k in (f"{me}.struct.s", f"{me}.struct.t", f"{me}.struct.D", f"{me}.hfs", f"{me}.slices"))
-            user = any(isinstance(x, ast.Name) and x.id in derived for x in ast.walk(s))
+            hdr = s.iter if isinstance(s, (ast.For, ast.AsyncFor)) else (s.test if isinstance(s, (ast.While, ast.If)) else s)
+            t = A.text(hdr)
+            native = any(k in t for k in nat_fields) or any(isinstance(x, ast.Name) and x.id in nat_derived and isinstance(x.ctx, ast.Load) for x in ast.walk(hdr))
+            user = any(isinstance(x, ast.Name) and x.id in derived and isinstance(x.ctx, ast.Load) for x in ast.walk(hdr))
             if native and user:
                 uses.append(s)
         if not uses:
